@@ -27,6 +27,69 @@ def is_foreign_type(t):
         t = t[2]
     return t is not None and t[0] == 'path' and t[1].startswith(FOREIGN_ROOTS)
 
+def upvars_needed(body):
+    """number of captured places the closure / coroutine body accesses: max k in `((*_1).k: T)` / `(_1.k: T)` + 1"""
+    mx = -1
+    def scan_place(pl):
+        nonlocal mx
+        base, projs = pl
+        if base != '_1' and not base_alias.get(base):
+            return
+        ps = list(projs)
+        # ((*_1).k)  or  (_1.k)  - for coroutines through the pinned reference: ((*(_1.0)).k) is copied into a local first
+        i = 0
+        if ps and ps[0][0] == 'deref':
+            i = 1
+        if i < len(ps) and ps[i][0] == 'field' and not (i + 0 < len(ps) and i > 0 and ps[i - 1][0] == 'downcast'):
+            if i == 0 and base == '_1' and is_coroutine:
+                return
+            mx = max(mx, ps[i][1])
+    is_coroutine = bool(body.argtypes and body.argtypes[0].startswith('Pin<'))
+    base_alias = {}
+    def walk(x):
+        if isinstance(x, tuple):
+            if len(x) == 2 and isinstance(x[0], str) and x[0].startswith('_') and isinstance(x[1], tuple):
+                scan_place(x)
+            for y in x:
+                walk(y)
+        elif isinstance(x, list):
+            for y in x:
+                walk(y)
+    for bb, (stmts, term, cl) in body.blocks.items():
+        for s in stmts:
+            # coroutine: `_25 = copy (_1.0: &mut {async ...})` makes _25 an alias of the state pointer
+            if is_coroutine and s[0] == 'assign' and s[2][0] == 'use' and s[2][1][0] in ('copy', 'move') and s[2][1][1][0] == '_1' and not s[1][1]:
+                base_alias[s[1][0]] = True
+    for bb, (stmts, term, cl) in body.blocks.items():
+        walk(stmts); walk(term)
+    return mx + 1
+
+def count_uses(f, local):
+    n = 0
+    def walk(x, top):
+        nonlocal n
+        if isinstance(x, tuple):
+            if len(x) == 2 and x[0] == local and isinstance(x[1], tuple):
+                n += 1
+            for y in x:
+                walk(y, False)
+        elif isinstance(x, list):
+            for y in x:
+                walk(y, False)
+        elif x == local:
+            n += 1
+    for bb, (stmts, term, cl) in f.blocks.items():
+        for s in stmts:
+            if s[0] == 'assign':
+                if s[1][0] == local and not s[1][1]:
+                    walk(s[2], False)
+                    continue
+                walk(s[1], False); walk(s[2], False)
+            else:
+                walk(s, False)
+        walk(term, False)
+    return n - 0
+
 def rtypes_str(t):
     return type_str(t) if t is not None else ''
 
@@ -121,6 +184,7 @@ class Program:
                 self.multi.setdefault(name, []).extend(lst)
         self.read_sources()
         self.finish_sources()
+        self.repair_captures()
         self.index()
 
     # ------------------------------------------------------------------ sources
@@ -213,6 +277,52 @@ class Program:
         for lst in self.multi.values():
             for f in lst[1:]:
                 yield f
+
+    def repair_captures(self):
+        """rustc's MIR pretty printer zips the operands of a closure / coroutine aggregate with the names of the captured
+        *variables*; when one variable is captured through several places (disjoint field captures) the text shows fewer
+        operands than the body uses.  The missing operands are the temporaries assigned right before the aggregate that
+        are used nowhere else; if they cannot be identified the aggregate is marked and executing it is inconclusive."""
+        by_loc = {}
+        for f in self.all_funcs():
+            if f.argtypes:
+                m = re.search(r'\{(?:closure|async block|async closure|coroutine)@([^}]*)\}', f.argtypes[0])
+                if m:
+                    by_loc[m.group(1).replace(' (#0)', '')] = f
+        self.body_by_loc = by_loc
+        for f in self.all_funcs():
+            for bb, (stmts, term, cl) in f.blocks.items():
+                for si, s in enumerate(stmts):
+                    if s[0] != 'assign' or s[2][0] not in ('closure', 'coroutine'):
+                        continue
+                    rv = s[2]
+                    loc = rv[1][rv[1].index('@') + 1:-1].replace(' (#0)', '')
+                    body = by_loc.get(loc)
+                    if body is None and rv[0] == 'coroutine':
+                        body = self.funcs.get(f.name + '::{closure#0}')
+                    if body is None:
+                        continue
+                    need = upvars_needed(body)
+                    have = len(rv[2])
+                    if need <= have:
+                        continue
+                    used = set(o[1][0] for _, o in rv[2] if o[0] in ('copy', 'move'))
+                    cands = []
+                    for t in reversed(stmts[:si]):
+                        if t[0] != 'assign' or t[1][1]:
+                            break
+                        if t[1][0] in used:
+                            continue
+                        cands.append(t[1][0])
+                    cands.reverse()
+                    cands = [c for c in cands if count_uses(f, c) == 0]
+                    missing = need - have
+                    if len(cands) >= missing:
+                        extra = cands[-missing:] if False else cands[:missing]
+                        fields = list(rv[2]) + [('?', ('move', (c, ()))) for c in extra]
+                        stmts[si] = ('assign', s[1], (rv[0], rv[1], fields))
+                    else:
+                        stmts[si] = ('assign', s[1], (rv[0], rv[1], list(rv[2]) + [('?', ('const', '!missing-capture'))] * missing))
 
     def index(self):
         impl_cache = {}
